@@ -49,16 +49,55 @@ def generate(rng, tier):
         cap = rng.choice([1, 1, 2, 3])
         nr = rng.randint(cap + 1, cap + 4)
         cases.append({"cap": cap, "n": nr, "events": gen_history(rng, cap, nr)})
+    # a followed file is truncated (the reader pauses 2 s with its slot and re-opens); a session that ends during the pause
+    cases.append({"cap": 1, "n": 3, "events": [["start", "0"], ["start", "1"], ["start", "2"], ["truncstop", "0"], ["stop", "1"]]})
+    cases.append({"cap": 1, "n": 3, "events": [["start", "0"], ["start", "1"], ["trunc", "0"], ["start", "2"], ["stop", "0"]]})
+    cases.append({"cap": 2, "n": 4, "events": [["start", "0"], ["start", "1"], ["start", "2"], ["start", "3"], ["truncstop", "1"], ["stop", "0"]]})
     # black box: the real clients in serverless mode with different cat and tail limits; the files of the session that are
     # open at the same time are sampled from /proc/<pid>/fd
     cases.append({"bb": "dcat", "cats": 1, "tails": 4, "files": 4})
     cases.append({"bb": "dcat", "cats": 2, "tails": 1, "files": 5})
     if tier != "quick":
         cases.append({"bb": "dcat", "cats": 3, "tails": 7, "files": 7})
+    # black box over SSH: a client that is killed in the middle of a transfer (its session is cancelled while the
+    # server is sending) must not keep the only cat slot: the next read has to run
+    cases.append({"bb": "cancel", "cats": 1, "maxlen": 16})
+    cases.append({"bb": "cancel", "cats": 1, "maxlen": 1048576})
     return cases
 
 
+def _cancelled(c, k):
+    env = srv.Env(os.path.join(vf.scratch(), "c13cancel%d" % k))
+    s = env.start_server("cancel%d" % k, server_cfg={"MaxLineLength": c["maxlen"], "MaxConcurrentCats": c["cats"], "MaxConnections": 100})
+    big = os.path.join(env.dir, "big.log")
+    with open(big, "w") as f:
+        # lines a little longer than MaxLineLength=16: one long-line warning per two pieces, so the 10-slot server message
+        # queue is what fills up first once the client stops reading
+        f.write("".join("L%06d %s\n" % (j, "d" * 12) for j in range(600000)))
+    small = os.path.join(env.dir, "small.log")
+    open(small, "w").write("hello\n")
+    env.client("dcat", ["--plain", "--files", small], servers=[s], timeout=30)      # records the host key
+    results = []
+    for r in range(2):
+        cmd = [os.path.join(srv.BIN, "dcat"), "--cfg", "none", "--servers", "127.0.0.1:%d" % s.port, "--trustAllHosts", "--key", env.key,
+               "--user", "root", "--plain", "--files", big]
+        p = subprocess.Popen(cmd, stdin=subprocess.DEVNULL, stdout=subprocess.PIPE, stderr=subprocess.DEVNULL, env=env.client_env(), cwd=env.dir)
+        p.stdout.read(4096)
+        time.sleep(1.5)        # the client stalls: the SSH window fills, the server stops being read, its queues fill up
+        p.kill(); p.wait()
+        time.sleep(0.5)
+        t0 = time.time()
+        rc, out, err = env.client("dcat", ["--plain", "--files", small], servers=[s], timeout=20)
+        results.append({"rc": rc, "ok": out.endswith(b"hello\n"), "secs": round(time.time() - t0, 1)})
+        if rc != 0:
+            break
+    env.stop_all()
+    return {"rounds": results}
+
+
 def _blackbox(c, k):
+    if c["bb"] == "cancel":
+        return _cancelled(c, k)
     env = srv.Env(os.path.join(vf.scratch(), "c13bb%d" % k))
     cfg = env.write_cfg("bb.json", server={"MaxConcurrentCats": c["cats"], "MaxConcurrentTails": c["tails"]})
     paths = []
@@ -116,6 +155,12 @@ def judge(cases, obs, tier):
         if o is None or "panic" in o or "error" in o:
             oracle[i] = "implementation failed: %s" % (o,)
             continue
+        if c.get("bb") == "cancel":
+            bad = [r for r in o["rounds"] if r["rc"] != 0 or not r["ok"]]
+            if bad:
+                oracle[i] = ("after a client was killed in the middle of a transfer (MaxLineLength %d, MaxConcurrentCats %d) the next read of a one-line "
+                             "file did not run: %s - the cancelled session keeps its limiter slot") % (c["maxlen"], c["cats"], o["rounds"])
+            continue
         if "bb" in c:
             if o["rc"] != 0:
                 oracle[i] = "serverless %s ended with status %s" % (c["bb"], o["rc"])
@@ -128,7 +173,7 @@ def judge(cases, obs, tier):
             j = int(ev[1])
             if ev[0] == "start" and j not in live:
                 live.append(j)
-            elif ev[0] == "stop" and j in live:
+            elif ev[0] in ("stop", "truncstop") and j in live:
                 live.remove(j)
             opened = ob["open"] or []
             if len(opened) > c["cap"]:
@@ -142,7 +187,9 @@ def judge(cases, obs, tier):
                 oracle[i] = "after event %d a stopped session's file is still being read: open %s, live %s" % (k, opened, live)
                 break
         # a session that is gone before it reaches the limiter leaves the live set unchanged: (false, i) on a non-live reader
-        evs = vf.cq_list(["(%s, %s)" % (vf.cq_bool(e[0] == "start"), e[1]) for e in c["events"]])
+        # a truncation that the session survives does not change who holds or waits: for the model it is the
+        # no-op "stop of a reader that was never started" (index n)
+        evs = vf.cq_list(["(%s, %s)" % (vf.cq_bool(e[0] == "start"), e[1] if e[0] != "trunc" else str(c["n"])) for e in c["events"]])
         ob = vf.cq_list(["(%d, %s)" % (t["tokens"], vf.cq_list([str(x) for x in (t["open"] or [])])) for t in o["trace"]])
         terms.append("(%d, %s, %s)" % (c["cap"], evs, ob))
         idx.append(i)
@@ -160,7 +207,7 @@ def classify(case, ob, detail):
 def nontrivial(c):
     if "bb" in c:
         return True
-    return c["n"] > c["cap"] and any(e[0] == "stop" for e in c["events"])
+    return c["n"] > c["cap"] and any(e[0] in ("stop", "truncstop") for e in c["events"])
 
 
 def sample(c, o):
